@@ -103,6 +103,11 @@ class Recorder(protocol.Protocol):
     def connectionMade(self):
         self.log.append(("made",))
         self.world.app_events.append((self.side, self.label, "made"))
+        hook = getattr(self.world, "on_made", None)
+        if hook is not None and not self.world._building_inbound:
+            # an application that talks first: it writes (and maybe closes) from inside connectionMade()
+            self.world.on_made = None
+            hook(self)
 
     def dataReceived(self, data):
         self.log.append(("data", bytes(data)))
